@@ -37,7 +37,7 @@ fn reserved_words() -> &'static BTreeSet<&'static str> {
         BTreeSet::from([
             "let", "module", "func", "out", "assert", "self", "import", "include", "as", "map",
             "filter", "convert", "fail", "NULL", "in", "is", "TRACE", "not", "select", "reduce",
-            "constraint",
+            "constraint", "env",
         ])
     });
     &WORDS
